@@ -107,7 +107,7 @@ class Euler:
     """One explicit Euler step per requested interval; row layout of the shipped Scipy integrator
     (`integrate(t_end, steps)` -> `steps + 1` points; `integrate_time_course` prepends t0)."""
 
-    def __init__(self, rhs, y0, jacobian=None, *, nss=4, h=0.25, fail=(), tol=None):
+    def __init__(self, rhs, y0, jacobian=None, *, nss=4, h=0.25, fail=(), tol=None, raises=()):
         from mxlpy.types import IntegrationFailure, NoSteadyState, Result  # noqa: F401
 
         self.rhs = rhs
@@ -120,6 +120,7 @@ class Euler:
         d0 = rhs(0.0, self.y0)
         key = float(sum(self.y0) + 3.0 * sum(float(v) for v in d0))
         self.fail = key in fail
+        self.raises = key in raises  # integrate_to_steady_state raises (an exception escaping the integrator)
 
     def reset(self):
         self.t0 = 0.0
@@ -151,6 +152,9 @@ class Euler:
         from mxlpy.integrators.abstract import TimeCourse
         from mxlpy.types import NoSteadyState, Result
 
+        if self.raises:
+            msg = "toy integrator: the right-hand side raised"
+            raise ValueError(msg)
         if self.fail:
             return Result(NoSteadyState())
         self.reset()
@@ -170,7 +174,8 @@ def make_integ(cfg):
     if cfg is None:
         return None
     return partial(Euler, nss=int(cfg["nss"]), h=fl(cfg["h"]), fail=tuple(fl(k) for k in cfg["fail"]),
-                   tol=None if cfg.get("tol") is None else fl(cfg["tol"]))
+                   tol=None if cfg.get("tol") is None else fl(cfg["tol"]),
+                   raises=tuple(fl(k) for k in cfg.get("raise", [])))
 
 
 # --------------------------------------------------------------------------- tolerant comparison
